@@ -23,12 +23,16 @@ ops (all numbers decimal, names/paths hex-encoded ASCII):
                                            the record lines are in *delivery* order, which need not be time order
   switchout <pid> <tid> <t> [preempt]      … with PERF_RECORD_MISC_SWITCH_OUT [| SWITCH_OUT_PREEMPT]
   sched <pid> <tid> <t> <k|u> <ip> <chain> SAMPLE of the second event `sched:sched_switch`
+  oev <pid> <tid> <t> <k|u> <ip> <chain>   SAMPLE of another event (`probe:deep_call`; its attr exists in the file
+                                           exactly when the case has such an op): becomes a marker with a stack
   cfg word `cs:<letters|->:<n>`: c = attr.context_switch on the main event, s = a second event named
       sched:sched_switch exists, h = the main event is a hardware event (not time based), f = attr.freq (n is a
       frequency in Hz, else the sample period), w = switch records are SWITCH_CPU_WIDE (no effect on the model)
 
 output: one `thread …` line per thread entry, sorted by (pid string, tid string), followed by its
-sample lines sorted by (time, frames); which fields appear depends on the projection.
+sample lines sorted by (time, frames); which fields appear depends on the projection. Then one line
+`m <t> <stack>` per "Other event" marker of the thread (sorted as strings; `nostack` when the marker has no
+cause stack): only cases with `oev` ops have such lines.
 -/
 namespace ConvIface
 open Conv Proto
@@ -53,6 +57,8 @@ def parseRec (l : String) : Option Rec :=
   | ["switchout", pid, tid, t, "preempt"] => some (.switchOut (nat! pid) (nat! tid) (nat! t))
   | ["sched", pid, tid, t, mode, ip, chain] =>
     some (.sched (nat! pid) (nat! tid) (nat! t) (mode == "k") (nat! ip) (parseChain chain))
+  | ["oev", pid, tid, t, mode, ip, chain] =>
+    some (.otherEvent (nat! pid) (nat! tid) (nat! t) (mode == "k") (nat! ip) (parseChain chain))
   | _ => none
 
 /-- a perf-map op: (pid, text of the line) -/
@@ -185,6 +191,15 @@ def sampleLine (proj : Proj) (o : OutSample) : String :=
   | .full => s!"s {o.t} {o.weight} {o.cpu} " ++ showFrames o.frames
   | .cs => s!"s {o.t} {if isOffStack o.frames then "off" else "on"} {o.weight} {o.cpu / 1000}"
 
+/-- the line of a marker stack; an empty stack gives no stack handle (`handle_for_stack_frames` returns
+`None`): the marker then has no `cause` -/
+def markerLine (proj : Proj) (o : OutSample) : String :=
+  if o.frames.isEmpty then s!"m {o.t} nostack" else
+  match proj with
+  | .c14 => s!"m {o.t} " ++ showFramesC14 o.frames
+  | .c02 | .full => s!"m {o.t} " ++ showFrames o.frames
+  | _ => s!"m {o.t}"
+
 def keyOf (o : OutSample) : String := s!"{1000000000000000000000 + o.t} " ++ showFrames o.frames
 
 /-- order of the `cs` projection: (time, off before on, weight, cpu µs) -/
@@ -202,7 +217,8 @@ def threadLines (proj : Proj) (v : View) : List String :=
     | .c17 => s!"thread {v.pid} {v.tid} main={if v.isMain then 1 else 0} name={hexOfStr v.name} pname={hexOfStr v.processName} start={v.start} end={optNat v.end_} pstart={v.pstart} pend={optNat v.pend}"
     | .c02 | .c14 | .cs => s!"thread {v.pid} {v.tid} n={v.samples.length}"
     | .full => s!"thread {v.pid} {v.tid} main={if v.isMain then 1 else 0} name={hexOfStr v.name} pname={hexOfStr v.processName} start={v.start} end={optNat v.end_} pstart={v.pstart} pend={optNat v.pend} n={v.samples.length}"
-  head :: (if proj == .c17 then [] else samples.map (sampleLine proj))
+  head :: (if proj == .c17 then [] else
+    samples.map (sampleLine proj) ++ ((v.markers.map (markerLine proj)).mergeSort strLe))
 
 def render (proj : Proj) (vs : List View) : List String :=
   let sorted := vs.mergeSort (fun a b => strLe (a.pid ++ " " ++ a.tid) (b.pid ++ " " ++ b.tid))
